@@ -117,24 +117,6 @@ theorem pieces_no_fuel (t L : Nat) (l : Line) (bp : Nat) :
 
 /-! ### side condition of the "never fails" clause -/
 
-/-- a blank at an index `j` with `fnw s + 1 ≤ j < W`: a usable break point in the window -/
-def hasBlank (W : Nat) (s : Line) : Bool :=
-  (List.range W).any (fun j => decide (fnw s + 1 ≤ j) && s[j]? == some 32)
-
-/-- every suffix that would still have to be split has a usable blank in the (smallest) window -/
-def suffixesOK (csLen W L : Nat) (s : Line) : Bool :=
-  (List.range (s.length + 1)).all (fun i => decide ((s.drop i).length + csLen ≤ L) || hasBlank W (s.drop i))
-
-/-- Decidable sufficient condition for `process` not to raise on a line: the line is short enough, or
-(after removing the indentation) from every position on, once the first non-blank character is passed,
-a blank occurs before the window `L - len(c_end) - len(c_start)` closes. -/
-def Breakable (L : Nat) (l : Line) : Bool :=
-  decide (l.length ≤ L) ||
-    (let t := lineType l
-     let W := L - (Gen.contEnd t).length - (Gen.contStart t).length
-     (decide ((lstrip l).length < L) || hasBlank W (lstrip l)) &&
-       suffixesOK (Gen.contStart t).length W L (lstrip l))
-
 theorem hasBlank_findBreak (W m : Nat) (s : Line) (keys : List Line) (hk : [32] ∈ keys) (hW : W ≤ m)
     (h : hasBlank W s = true) : ∃ bp, findBreak s m keys = some bp := by
   simp only [hasBlank, List.any_eq_true, List.mem_range, Bool.and_eq_true, decide_eq_true_eq, beq_iff_eq] at h
